@@ -416,6 +416,13 @@ func (x *expander) stmt(s ast.Stmt, next ast.Stmt, depth int) []ast.Stmt {
 			return append(first, x.blockC(un[2:], depth, false, next)...)
 		}
 	case *ast.SwitchStmt:
+		// `switch v, k := helper(x); k {…}`: the initialiser is a statement of its own before the switch
+		if t.Init != nil && t.Tag != nil && x.inlinableStmt(t.Init, depth) {
+			init := t.Init
+			t.Init = nil
+			x.rewrote = true
+			return []ast.Stmt{&ast.BlockStmt{Lbrace: s.Pos(), List: x.blockC([]ast.Stmt{init, t}, depth, false, next), Rbrace: s.End()}}
+		}
 		// `switch helper(args) {…}`: the tag is computed into a temporary first, so that the helper is expanded
 		// like any assigned call (and its constant returns can enter their case directly)
 		if call, ok := ast.Unparen(t.Tag).(*ast.CallExpr); ok && t.Init == nil {
@@ -713,10 +720,18 @@ func (x *expander) eligibleBody(fn *Func, call *ast.CallExpr, allowDefer bool) b
 	if t := x.info.TypeOf(call.Fun); t != nil {
 		sig, _ = t.Underlying().(*types.Signature)
 	}
-	if sig == nil || sig.Variadic() {
+	if sig == nil {
 		return false
 	}
-	if sig.Params().Len() != len(call.Args) {
+	if sig.Variadic() {
+		// explicit trailing operands only (not `f(xs...)`), so that they can be read as a slice literal
+		if call.Ellipsis.IsValid() || len(call.Args) < sig.Params().Len()-1 {
+			return false
+		}
+		if len(call.Args) == 1 && sig.Params().Len() > 1 {
+			return false
+		}
+	} else if sig.Params().Len() != len(call.Args) {
 		return false // f(g()) with a tuple argument
 	}
 	ok := true
@@ -1034,6 +1049,7 @@ func (x *expander) inline(call *ast.CallExpr, ctx *callCtx, depth int) ([]ast.St
 	var out []ast.Stmt
 
 	// bind parameters
+	var variadicLit ast.Expr
 	written := x.writtenObjs(srcBody)
 	bind := func(nameID *ast.Ident, arg ast.Expr) {
 		if nameID == nil || nameID.Name == "_" {
@@ -1050,6 +1066,34 @@ func (x *expander) inline(call *ast.CallExpr, ctx *callCtx, depth int) ([]ast.St
 		if !written[pobj] && x.substitutable(arg) {
 			cl.subst[pobj] = arg
 			return
+		}
+		// the slice literal standing for the trailing operands of a variadic call, read exactly once by the
+		// callee (`for _, s := range rest`): the literal takes the parameter's place, so the loop is a table loop
+		if arg == variadicLit && !written[pobj] {
+			uses := 0
+			ast.Inspect(srcBody, func(n ast.Node) bool {
+				if id, ok := n.(*ast.Ident); ok && x.info.Uses[id] == pobj {
+					uses++
+				}
+				return true
+			})
+			inLit := false
+			ast.Inspect(srcBody, func(n ast.Node) bool {
+				if fl, ok := n.(*ast.FuncLit); ok {
+					ast.Inspect(fl, func(m ast.Node) bool {
+						if id, ok := m.(*ast.Ident); ok && x.info.Uses[id] == pobj {
+							inLit = true
+						}
+						return true
+					})
+					return false
+				}
+				return true
+			})
+			if uses == 1 && !inLit {
+				cl.subst[pobj] = arg
+				return
+			}
 		}
 		// positioned at the operand, so that the binding occupies the operand's source range
 		def := &ast.Ident{NamePos: arg.Pos(), Name: nameID.Name}
@@ -1068,14 +1112,30 @@ func (x *expander) inline(call *ast.CallExpr, ctx *callCtx, depth int) ([]ast.St
 		bind(nm, c.recv)
 	}
 	i := 0
+	args := call.Args
+	if sig, ok := x.info.TypeOf(call.Fun).Underlying().(*types.Signature); ok && sig.Variadic() && !call.Ellipsis.IsValid() {
+		// f(a, b, c) with f(a T, rest ...U): the trailing operands are the elements of a slice literal
+		fixed := sig.Params().Len() - 1
+		st, _ := sig.Params().At(fixed).Type().(*types.Slice)
+		if st != nil && len(args) >= fixed {
+			lit := &ast.CompositeLit{Lbrace: at, Elts: append([]ast.Expr(nil), args[fixed:]...), Rbrace: at}
+			elemID := &ast.Ident{NamePos: at, Name: types.TypeString(st.Elem(), func(*types.Package) string { return "" })}
+			x.info.Types[elemID] = types.TypeAndValue{Type: st.Elem()}
+			lit.Type = &ast.ArrayType{Lbrack: at, Elt: elemID}
+			x.info.Types[lit.Type] = types.TypeAndValue{Type: st}
+			x.info.Types[lit] = types.TypeAndValue{Type: st}
+			args = append(append([]ast.Expr(nil), args[:fixed]...), lit)
+			variadicLit = lit
+		}
+	}
 	for _, fld := range srcType.Params.List {
 		if len(fld.Names) == 0 {
-			bind(nil, call.Args[i])
+			bind(nil, args[i])
 			i++
 			continue
 		}
 		for _, nm := range fld.Names {
-			bind(nm, call.Args[i])
+			bind(nm, args[i])
 			i++
 		}
 	}
@@ -1149,6 +1209,9 @@ func (x *expander) inline(call *ast.CallExpr, ctx *callCtx, depth int) ([]ast.St
 	var target *ast.IfStmt // the if statement testing the outcome
 	var testIdx = -1       // which result it tests
 	var nonNilOnTrue bool
+	cmpIdx := -1 // which result an `if v == C` after the call compares with the constant cmpVal
+	var cmpVal constant.Value
+	var cmpEqOnTrue bool
 	switch ctx.kind {
 	case ctxAssign:
 		if ifs, ok := ctx.next.(*ast.IfStmt); ok && ifs.Init == nil {
@@ -1160,6 +1223,30 @@ func (x *expander) inline(call *ast.CallExpr, ctx *callCtx, depth int) ([]ast.St
 				if k, pos, ok := x.testOf(ifs.Cond, obj); ok {
 					target, testIdx, nonNilOnTrue = ifs, i, pos
 					_ = k
+				}
+			}
+			// `if v == C` / `if v != C` with a constant C: a return that yields a constant at that position enters
+			// the branch the comparison selects
+			if target == nil {
+				if be, ok := ast.Unparen(ifs.Cond).(*ast.BinaryExpr); ok && (be.Op == token.EQL || be.Op == token.NEQ) {
+					for i, l := range ctx.assign.Lhs {
+						obj := x.objOf(l)
+						if obj == nil || obj.Name() == "_" {
+							continue
+						}
+						var other ast.Expr
+						switch {
+						case x.objOf(be.X) == obj:
+							other = be.Y
+						case x.objOf(be.Y) == obj:
+							other = be.X
+						default:
+							continue
+						}
+						if tv, ok := x.info.Types[other]; ok && tv.Value != nil {
+							target, cmpIdx, cmpVal, cmpEqOnTrue = ifs, i, tv.Value, be.Op == token.EQL
+						}
+					}
 				}
 			}
 		}
@@ -1373,6 +1460,15 @@ func (x *expander) inline(call *ast.CallExpr, ctx *callCtx, depth int) ([]ast.St
 			if swTarget != nil && len(results) == nres {
 				if tv, ok := x.info.Types[results[swIdx]]; ok && tv.Value != nil {
 					return append(st, gotoStmt(caseLabel(tv.Value, pos), pos))
+				}
+			}
+			if cmpIdx >= 0 && len(results) == nres {
+				if tv, ok := x.info.Types[results[cmpIdx]]; ok && tv.Value != nil && tv.Value.Kind() == cmpVal.Kind() {
+					ensureBranchLabels()
+					if constant.Compare(tv.Value, token.EQL, cmpVal) == cmpEqOnTrue {
+						return append(st, gotoStmt(thenL, pos))
+					}
+					return append(st, gotoStmt(elseL, pos))
 				}
 			}
 			return append(st, jump()...)
